@@ -761,6 +761,111 @@ def r8(k: Kit) -> None:
     rep.floor('C16.R8', 'signed authenticator fields', n, 4)
 
 
+def _add_parts(e: ast.AST) -> List[ast.AST]:
+    if isinstance(e, ast.BinOp) and isinstance(e.op, ast.Add):
+        return _add_parts(e.left) + _add_parts(e.right)
+    return [e]
+
+
+def r10(k: Kit) -> None:
+    """WebAuthn signatures are bound to the whole message and origin."""
+    rep = k.rep
+    rep.rule('C16.R10', 'webauthn-sk signatures: verify_ssh compares the '
+             'client data with sk_webauthn_prefix(data, application), and '
+             'that prefix is type, then the base64url challenge of the '
+             'signed data closed by its quote, then the origin - a '
+             'challenge compared without its closing delimiter (or not at '
+             'all) lets one signature verify for other messages')
+    px = k.func('sk.sk_webauthn_prefix')
+    g = k.cfg(px)
+    rets = [x for x in g.nodes if x.kind == 'return']
+    rep.floor('C16.R10', 'returns of sk_webauthn_prefix', len(rets), 1)
+    for r in rets:
+        parts = _add_parts(r.ast.value)
+        ci = [i for i, p_ in enumerate(parts) if any(
+            is_call(c, 'urlsafe_b64encode') and c.args and
+            dotted(c.args[0]) == 'data' for c in ast.walk(p_))]
+        closed = bool(ci) and ci[0] + 1 < len(parts) and isinstance(
+            parts[ci[0] + 1], ast.Constant) and isinstance(
+                parts[ci[0] + 1].value, bytes) and \
+            parts[ci[0] + 1].value.startswith(b'"')
+        opened = bool(ci) and ci[0] > 0 and isinstance(
+            parts[ci[0] - 1], ast.Constant) and isinstance(
+                parts[ci[0] - 1].value, bytes) and \
+            parts[ci[0] - 1].value.endswith(b'"challenge":"')
+        origin = any('application' in names_read(p_) for p_ in parts[
+            (ci[0] + 1 if ci else 0):])
+        rep.check(closed and opened and origin, 'C16.R10',
+                  key(px, 'challenge is delimited, origin follows'),
+                  '..."challenge":"<b64(data)>","origin":"<application>"',
+                  'the prefix does not close the challenge with its quote / '
+                  'does not continue with the origin: a signature for '
+                  'message M verifies for every message whose base64url '
+                  'form is a prefix of M\'s (M[:3k], the empty message)',
+                  k.loc(px, r))
+    n = 0
+    for q in ('sk_ecdsa._SKECDSAKey.verify_ssh', 'sk_eddsa._SKEd25519Key.verify_ssh'):
+        if not k.idx.has_func(q):
+            continue
+        fi = k.func(q)
+        g = k.cfg(fi)
+        rd = k.rd(fi)
+        cds = [nd for nd, v in k.stores_to(fi, 'client_data')]
+        if not cds:
+            continue
+        n += 1
+        tests = [(nd, c) for nd, c in k.calls_named(fi, 'startswith',
+                                                    'client_data')]
+        ok = False
+        for nd, c in tests:
+            leaves, free = expr_sources(g, rd, nd.id, c.args[0])
+            exprs = [c.args[0]] + list(leaves)
+            ok = ok or any(is_call(x, 'sk_webauthn_prefix') and x.args and
+                           dotted(x.args[0]) == 'data'
+                           for e in exprs for x in [e])
+        rep.check(ok, 'C16.R10', key(fi, 'client data checked against the '
+                                         'prefix of this message'),
+                  'client_data.startswith(sk_webauthn_prefix(data, ...))',
+                  'the WebAuthn client data is not compared with '
+                  'sk_webauthn_prefix(data, application): the challenge of '
+                  'this session / message is not (fully) bound, so a '
+                  'recorded signature blob authenticates a new session or '
+                  'a truncated message', fi.loc(fi.node))
+    rep.floor('C16.R10', 'webauthn verifiers', n, 1)
+
+
+def r11(k: Kit) -> None:
+    """A time written with Z is UTC."""
+    rep = k.rep
+    rep.rule('C16.R11', 'misc.parse_time: a timestamp with the "Z" suffix '
+             'is given the UTC zone by replace(tzinfo=timezone.utc); '
+             'astimezone() on the naive strptime() result would first read '
+             'it as local time and shift every valid-after / valid-before '
+             'window and certificate validity by the verifier\'s UTC offset')
+    fi = k.func('misc.parse_time')
+    g = k.cfg(fi)
+    st = [(nd, v) for nd, v in k.stores_to(fi, 'dt') if v is not None]
+    rep.floor('C16.R11', 'datetime computations', len(st), 2)
+    utc = [(nd, v) for nd, v in st if any(
+        dotted(x) == 'timezone.utc' for x in ast.walk(v))]
+    rep.floor('C16.R11', 'UTC branch', len(utc), 1)
+    for nd, v in utc:
+        ok = is_call(v, 'replace') and any(
+            kw.arg == 'tzinfo' and dotted(kw.value) == 'timezone.utc'
+            for kw in v.keywords)
+        rep.check(ok, 'C16.R11', key(fi, 'Z means UTC'),
+                  'dt.replace(tzinfo=timezone.utc)',
+                  f'`dt = {norm(v)}`: the naive value is converted from '
+                  'local time - on a verifier east or west of UTC the '
+                  'window of an allowed-signers entry moves by hours',
+                  k.loc(fi, nd))
+    bad = [c for c in ast.walk(fi.node) if is_call(c, 'astimezone')]
+    rep.check(not bad, 'C16.R11', key(fi, 'no local-time conversion'),
+              'no astimezone() in parse_time',
+              'astimezone() applied while parsing an absolute time',
+              fi.loc(bad[0]) if bad else '')
+
+
 def run(idx, rep, tier):
     k = Kit(idx, rep)
     rep.assumptions += NOT_DECIDED
@@ -773,6 +878,8 @@ def run(idx, rep, tier):
     r6(k)
     r7(k)
     r8(k)
+    r10(k)
+    r11(k)
     # C16.R9: the algorithm name of a signature blob is compared as read;
     # principals / namespaces are matched case-sensitively (shared witnesses)
     from .c17 import wildcard_witnesses
